@@ -106,7 +106,6 @@ ASSUMPTIONS = ['asyncio.Semaphore/gather/wait/Task semantics are those of CPytho
                'thunks re-raise CancelledError after their clean-up (they never swallow a cancellation)']
 
 OK, RAISE, NESTED, SELFC = 0, 1, 2, 3
-KIND_NAMES = ('ok', 'raise', 'nested', 'selfcancel')
 
 
 class ThunkError(Exception):
